@@ -175,6 +175,9 @@ func ZZ_C03_percentLarge() {
 		cats[i] = zzOutdatedAvailable
 	}
 	params, _ := zzParams(ds, rs, cats)
+	// nodes the replica set does not target (unfit for the pod, or reserved for a canary) are
+	// listed in NodeByName but not in PodByNodeName: percentages do not resolve against them
+	zzAddUntargetedNodes(params, nondet.String("untargetedNodes", "0", "1", "30"))
 	res, err := ManageDeployment(fakeapi.New(), ds, params, metav1.Now())
 	nondet.Assert("C03.large.noerror", err == nil)
 	if err != nil {
